@@ -24,6 +24,14 @@ CLAIMED.update({
    text="Decides: the try around open+pickle.load+unpack in _load_offsets handles every exception class a missing, empty, truncated or garbage cache can raise and falls through to the rebuild; on every path to a normal return the three module tables are assigned (exception edges out of the unpack do not count); every normal return is either the early return dominated by the complete unpack or passes through the pickle.dump of the same tuple; none of those classes escapes the module's import-time code; MANIFEST.in ships the file CACHE_PATH denotes.",
    note="Assumes a proper prefix of a pickle stream makes pickle.load raise (no STOP opcode), so 'cut off at any byte' reduces to handler coverage. The atomic-write clause of DESIGN (C19.R2) is not claimed: with complete handler coverage an in-place write cannot break the property.", ref="DESIGN.md §4 C19"),
 })
+CLAIMED.update({
+ "C11": dict(cat="other", tech="first-match shadowing analysis of the ordered regex table + structural rules (table evaluation, ast)",
+   text="Decides: for every abbreviation listed with one offset (upper and lower case) and every supported UTC offset in 8-10 spellings, the first table entry whose regex matches carries exactly the listed offset and the case-insensitive prefilter admits it (exhaustive over the table; the pickle is proved equal to this table by C16); pop_tz_offset_from_string uses the IGNORECASE prefilter, pairs name and offset of the same entry, returns the first match and keeps the captured leading character; StaticTzInfo has a constant offset, zero dst, a wall-clock-preserving localize and a __getinitargs__ mirroring __init__; DateParser.parse attaches the zone before any conversion; zone-less strings stay naive by default. Does not decide strings carrying several zone-like tokens.",
+   note="Trusted: the regex package for evaluating table patterns on table strings; the model of build_tz_offsets (conformance-checked, exit 2 if the function changes shape).", ref="DESIGN.md §4 C11"),
+ "C12": dict(cat="other", tech="guard truth tables (concrete evaluation), naive/aware typestate with reaching definitions, CFG ordering (ast)",
+   text="Decides: in the absolute, relative and helper (timestamp/custom-format) pipelines the tzinfo strip is enabled exactly for RETURN_AS_TIMEZONE_AWARE=False or (default and no zone in the string) - all 15 setting/zone rows evaluated concretely; every replace(tzinfo=Z)/Z.localize(d) acts on a provably naive value (dominating tzinfo test, naive constructor via reaching definitions, or all callers pass naive values) so aware values change zone only via astimezone; the single TO_TIMEZONE conversion is guarded by exactly the setting's truthiness, never follows the strip, and follows every application of TIMEZONE; timestamps are expressed in TIMEZONE by fromtimestamp(seconds, zone). Does not decide DST gaps/ambiguity, pytz tables or tzlocal.",
+   note="Assumes custom formats carry no %z (strptime results are naive); absolute parser results are naive (params literal without tzinfo: checked).", ref="DESIGN.md §4 C12"),
+})
 NA_REASON = {}
 
 def main():
